@@ -194,6 +194,10 @@ def defect_classes(pre, op):
         new = a[1] if kind == 'rename' else a[2]
         if any(n[3] == new and n[0] != a[0][1] for n in g.nodes):
             out.append('name-collision')
+    if kind == 'set_prop' and a[1] == 'names':
+        # set_properties(name=...) does not run the uniqueness check of set_property / rename
+        if any(n[3] == a[2] and n[0] != a[0][1] for n in g.nodes):
+            out.append('props-name-collision')
     if kind == 'remove_link':
         for l in g.ids(LINK):
             if g.name(l) == a[0] and any(g.typ(c) == 'ServicePort' for c in g.nb(l, 'connects', CP)):
